@@ -61,8 +61,16 @@ class OsuIO(GameIO):
             text = text.replace("\r\n", "\n")
         return OsuMap.read(text.split("\n"))
 
-    def write_api(self, obj, layout=None) -> bytes:
-        return "\n".join(obj.write()).encode("utf8")
+    def write_api(self, obj, layout=None):
+        return obj.write()
+
+    def api_bytes(self, raw):
+        if not isinstance(raw, list):
+            return None, f"write() returned a {type(raw).__name__}, not a list of lines"
+        for i, x in enumerate(raw):
+            if not isinstance(x, str):
+                return None, f"write() returned a list whose element {i} is {x!r} ({type(x).__name__}), not a line of text"
+        return "\n".join(raw).encode("utf8"), ""
 
     def write(self, obj, path, layout=None):
         return obj.write_file(path)
